@@ -4,10 +4,10 @@ Pins for HAND-WRITTEN models (M3).  A hand model is tied to the code only by its
 valid for the source text it was written against.  Each property lists the definitions its hand model mirrors
 (`PINS` in harness/props/cxx.py: "xfab/tools.py:genhkl_all", "xfab/parameters.py:parameters" (a class),
 "xfab/__init__.py:*" (whole module)); their normalised-AST hashes (docstrings dropped, comments/whitespace vanish)
-are stored in harness/pins.json.  When the source of a pinned definition changes, the check treats the tie as
-BROKEN: the failing-input search runs with its large budget and, if it finds nothing, the check still reports
-`VIOLATION … no-failing-input-found` (the property is no longer shown to hold for the new text).  After reviewing
-the model against the new source, re-pin with:   harness/pins.py --update [Cxx ...]
+with assigned locals renamed canonically and the numpy alias unified) are stored in harness/pins.json.  When the
+source of a pinned definition changes, the check re-establishes the tie on the spot: correspondence and failing-input
+search run with their large budgets; only a disagreement or a failing input is an alarm (see check.py).  After
+reviewing the model against the new source, re-pin with:   harness/pins.py --update [Cxx ...]
 """
 import ast, hashlib, importlib, json, os, sys, warnings
 warnings.filterwarnings("ignore")
@@ -28,6 +28,57 @@ class _Strip(ast.NodeTransformer):
     visit_Module = _doc
 
 
+class _Alpha(ast.NodeTransformer):
+    """rename the assigned local variables of every function (not its parameters, not globals, not attributes) to
+    l0, l1, ... in order of first appearance, and unify the numpy alias: a rename of a local is not a change"""
+    def visit_FunctionDef(self, node):
+        params = {a.arg for a in node.args.posonlyargs + node.args.args + node.args.kwonlyargs}
+        if node.args.vararg:
+            params.add(node.args.vararg.arg)
+        if node.args.kwarg:
+            params.add(node.args.kwarg.arg)
+        declared = set()
+        for sub in ast.walk(node):
+            if isinstance(sub, (ast.Global, ast.Nonlocal)):
+                declared.update(sub.names)
+        order = []
+
+        class Collect(ast.NodeVisitor):
+            def visit_Name(s, n):
+                if isinstance(n.ctx, (ast.Store, ast.Del)) and n.id not in params and n.id not in declared and n.id not in order:
+                    order.append(n.id)
+
+            def visit_FunctionDef(s, n):
+                if n is not node:
+                    return          # nested definitions keep their own scope
+                s.generic_visit(n)
+            visit_Lambda = lambda s, n: None
+            visit_ClassDef = lambda s, n: None
+        Collect().visit(node)
+        ren = {name: 'l%d' % i for i, name in enumerate(order)}
+
+        class Ren(ast.NodeTransformer):
+            def visit_Name(s, n):
+                if n.id in ren:
+                    return ast.copy_location(ast.Name(id=ren[n.id], ctx=n.ctx), n)
+                return n
+
+            def visit_FunctionDef(s, n):
+                if n is not node:
+                    return n
+                return s.generic_visit(n)
+            visit_ClassDef = lambda s, n: n
+        node = Ren().visit(node)
+        # nested functions / methods
+        node.body = [self.visit(b) if isinstance(b, (ast.FunctionDef, ast.ClassDef)) else b for b in node.body]
+        return node
+
+    def visit_Name(self, node):
+        if node.id == 'np':
+            return ast.copy_location(ast.Name(id='n', ctx=node.ctx), node)
+        return node
+
+
 def pin_hash(repo, spec):
     path, name = spec.split(':')
     tree = ast.parse(open(os.path.join(repo, path)).read())
@@ -42,6 +93,8 @@ def pin_hash(repo, spec):
                 return 'MISSING'
             scope = node.body
     node = _Strip().visit(ast.parse(ast.unparse(node)))
+    node = _Alpha().visit(node)
+    node = ast.parse(ast.unparse(ast.fix_missing_locations(node)).replace('np.', 'n.'))
     return hashlib.sha256(ast.dump(node, include_attributes=False).encode()).hexdigest()[:24]
 
 
